@@ -21,18 +21,19 @@ Fixpoint distinct (ss : list model) : Prop :=
 Definition sol_ok (N : cnf) (A : list lit) (m : model) : Prop :=
   wf_model (max_var N) m = true /\ consistent_b m = true /\ models (asg_of m) N /\ agrees (asg_of m) A.
 
-Record Inv (N : cnf) (A : list lit) (s : state) : Prop := mkInv {
+Record Inv (chk : bool) (N : cnf) (A : list lit) (s : state) : Prop := mkInv {
   inv_sols : forall m, In m (sols s) -> sol_ok N A m;
   inv_distinct : distinct (sols s);
-  inv_db : db_entailed (base N A (pures s)) (db s);
+  inv_db : chk = true -> db_entailed (base N A (pures s)) (db s);
   inv_pure : pure_okb N A (pures s) = true;
   inv_block_from : forall c, In c (blockings (db s)) -> exists m, In m (sols s) /\ c = map Z.opp m;
   inv_block_all : forall m, In m (if pending s then tl (sols s) else sols s) ->
                   In (map Z.opp m) (blockings (db s));
   inv_pending : pending s = true -> sols s <> [];
   inv_verdict : match verdict s with
-                | Some RInfeasible => unsat_under N A /\ sols s = []
-                | Some RExhausted => sols s <> [] /\ pending s = false /\ forall m, ~ models m (premises N A s)
+                | Some RInfeasible => (chk = true -> unsat_under N A) /\ sols s = []
+                | Some RExhausted => sols s <> [] /\ pending s = false
+                                     /\ (chk = true -> forall m, ~ models m (premises N A s))
                 | Some RLimit => sols s <> []
                 | _ => True
                 end
@@ -67,17 +68,17 @@ Proof.
   unfold base. apply models_app. split; [exact HA|]. apply models_app. split; assumption.
 Qed.
 
-Lemma init_Inv : forall N A, Inv N A init_state.
+Lemma init_Inv : forall chk N A, Inv chk N A init_state.
 Proof.
-  intros N A. constructor; simpl; try tauto; try (intros ? []); try discriminate.
+  intros chk N A. constructor; simpl; try tauto; try (intros ? []); try discriminate.
 Qed.
 
 Lemma andb5 : forall a b, a && b = true -> a = true /\ b = true.
 Proof. intros a b H. apply andb_prop. exact H. Qed.
 
-Lemma step_Inv : forall N A limit s e s', Inv N A s -> step N A limit s e = Some s' -> Inv N A s'.
+Lemma step_Inv : forall chk N A limit s e s', Inv chk N A s -> step chk N A limit s e = Some s' -> Inv chk N A s'.
 Proof.
-  intros N A limit s e s' HI Hstep. unfold step in Hstep.
+  intros chk N A limit s e s' HI Hstep. unfold step in Hstep.
   destruct (verdict s) eqn:Ev; [discriminate|].
   destruct HI as [Hsols Hdist Hdb Hpure Hbf Hba Hpend Hverd].
   destruct e as [n pu un asm | c b | m | st].
@@ -96,7 +97,7 @@ Proof.
       constructor; simpl.
       * exact Hsols.
       * exact Hdist.
-      * split; [discriminate | exact Hdb].
+      * intros Hchk. split; [discriminate | exact (Hdb Hchk)].
       * exact Hpure.
       * intros c [Heq | Hin].
         -- exists m. split; [left; reflexivity | symmetry; exact Heq].
@@ -112,9 +113,9 @@ Proof.
       constructor; simpl.
       * exact Hsols.
       * exact Hdist.
-      * split; [|exact Hdb]. intros _ m Hm.
+      * intros Hchk. rewrite Hchk in Hrup. split; [|exact (Hdb Hchk)]. intros _ m Hm.
         apply (rup_sound _ _ Hrup). apply models_app in Hm. destruct Hm as [HB Hbl].
-        apply premises_models; assumption.
+        apply premises_models; [exact (Hdb Hchk) | assumption | assumption].
       * exact Hpure.
       * exact Hbf.
       * rewrite Hnp in Hba. exact Hba.
@@ -154,7 +155,7 @@ Proof.
         constructor; simpl; try assumption.
         split; [|split; [reflexivity|]].
         -- destruct (sols s); [discriminate | discriminate].
-        -- intros m Hm. exact (rup_empty_unsat _ Hrup m Hm).
+        -- intros Hchk m Hm. rewrite Hchk in Hrup. exact (rup_empty_unsat _ Hrup m Hm).
     + (* INFEASIBLE *)
       match type of Hstep with (if ?g then _ else _) = _ => destruct g eqn:Eg; [|discriminate] end.
       injection Hstep as Hs'. subst s'.
@@ -164,13 +165,13 @@ Proof.
       constructor; simpl; try assumption.
       * discriminate.
       * split; [|exact Hs0].
-        intros [m [HmN HmA]].
+        intros Hchk [m [HmN HmA]]. rewrite Hchk in Hrup.
         destruct (pure_ok N A (pures s) m Hpure HmN HmA) as [HfN [HfA HfP]].
         assert (blockings (db s) = []) as Hb0.
         { destruct (blockings (db s)) as [|c0 r] eqn:Eb; [reflexivity|].
           destruct (Hbf c0 (or_introl eq_refl)) as [m0 [Hin _]]. rewrite Hs0 in Hin. destruct Hin. }
         apply (rup_empty_unsat _ Hrup (force (pures s) m)).
-        apply premises_models; [exact Hdb | | rewrite Hb0; apply models_nil].
+        apply premises_models; [exact (Hdb Hchk) | | rewrite Hb0; apply models_nil].
         unfold base. apply models_app. split; [apply models_units; exact HfA|].
         apply models_app. split; [apply models_units; exact HfP | exact HfN].
     + (* MAX_ITER *)
@@ -178,15 +179,15 @@ Proof.
       constructor; simpl; try assumption. exact I.
 Qed.
 
-Lemma run_from_Inv : forall N A limit evs s s', Inv N A s -> run_from N A limit s evs = Some s' -> Inv N A s'.
+Lemma run_from_Inv : forall chk N A limit evs s s', Inv chk N A s -> run_from chk N A limit s evs = Some s' -> Inv chk N A s'.
 Proof.
-  intros N A limit evs. induction evs as [|e evs IH]; intros s s' HI Hrun; simpl in Hrun.
+  intros chk N A limit evs. induction evs as [|e evs IH]; intros s s' HI Hrun; simpl in Hrun.
   - injection Hrun as Heq. subst. exact HI.
-  - destruct (step N A limit s e) as [s1|] eqn:Es; [|discriminate].
-    apply (IH s1 s'); [|exact Hrun]. exact (step_Inv N A limit s e s1 HI Es).
+  - destruct (step chk N A limit s e) as [s1|] eqn:Es; [|discriminate].
+    apply (IH s1 s'); [|exact Hrun]. exact (step_Inv chk N A limit s e s1 HI Es).
 Qed.
 
-Theorem run_Inv : forall N A limit evs s, run N A limit evs = Some s -> Inv N A s.
+Theorem run_Inv : forall chk N A limit evs s, run chk N A limit evs = Some s -> Inv chk N A s.
 Proof.
-  intros N A limit evs s H. exact (run_from_Inv N A limit evs init_state s (init_Inv N A) H).
+  intros chk N A limit evs s H. exact (run_from_Inv chk N A limit evs init_state s (init_Inv chk N A) H).
 Qed.
